@@ -22,6 +22,14 @@ struct Bitmap {
   }
 };
 
+// Undefined-behaviour reports (sanitizer build, recoverable): the UBSan runtime calls
+// __ubsan_on_report(), which parks the report here; the executor loop picks it up after the op.
+struct UbReport { bool pending; char kind[64]; char file[256]; unsigned line; char msg[256]; };
+extern UbReport g_ub;
+extern bool g_ubCollect;   // batch mode: print a UBHIT line and carry on instead of failing the run
+extern unsigned long long g_curRun, g_curSeed;
+void ubAfterOp(Verdict& v, int opIndex, const std::string& opLine);
+
 // index of the op being executed (for crash recovery in batch mode)
 extern volatile int g_curOp;
 
